@@ -23,7 +23,8 @@ META = {
     'level': 'exploration',
     'rule': ('provider MDIB programs (3-14 ops) x delivery schedules (sequences over the notification indices with drops, '
              'duplicates, reordering, late replays and reload events) x in-flight windows (0-3 commits before / after the '
-             'provider answers GetMdib) x optional SequenceId / InstanceId change; non-trivial = the schedule contains a '
+             'provider answers GetMdib, between GetMdib and a separate GetContextStates; optionally some of the reports '
+             'of these commits are lost) x optional SequenceId / InstanceId change; non-trivial = the schedule contains a '
              'duplicate or a reorder across a version boundary, or an in-flight window with >= 1 commit, or an id change; '
              'distinct by case'),
     'assumptions': ['notifications are handled synchronously in the delivering thread',
@@ -41,6 +42,13 @@ def st_case():
     sched = st.lists(st.one_of(st.integers(0, 40), st.integers(0, 40), st.integers(0, 40), st.just('R')), min_size=1, max_size=30)
     ordered_with_noise = st.tuples(st.lists(st.booleans(), min_size=40, max_size=40), st.lists(st.tuples(st.integers(0, 40), st.integers(0, 40)), max_size=6)).map(
         lambda t: ('ordered', t[0], t[1]))
+    # commits between GetMdib and a separate GetContextStates that change one context state more than once
+    ctx_classes = sorted({c for _h, c in inv.context_descriptors})
+    same_ctx = st.tuples(st.sampled_from(inv.context_states[:4] or ['vf_ctx_0']), st.lists(st.tuples(
+        st.sampled_from(ctx_classes).flatmap(MP._state_spec), st.sampled_from([None, 'Assoc', 'Dis']), MP.IFACE),  # noqa: SLF001
+        min_size=2, max_size=3)).map(lambda t: [['ctx_update', t[0], x[0], x[1], x[2]] for x in t[1]])
+    locations = st.lists(st.tuples(st.just('set_location'), MP.st_location()).map(list), min_size=2, max_size=3)
+    mid = st.one_of(inflight, inflight, same_ctx, locations)
     return st.fixed_dictionaries({
         'prog': prog, 'pre': inflight, 'post': inflight,
         'schedule': st.one_of(sched, ordered_with_noise),
@@ -48,7 +56,9 @@ def st_case():
         'after_change': st.lists(simple, min_size=1, max_size=3),
         # the provider leaves the context states out of GetMdibResponse: the consumer asks for them separately, and
         # `mid` is committed after GetMdib was answered and before GetContextStates is
-        'ctx_separate': st.booleans(), 'mid': inflight})
+        'ctx_separate': st.booleans(), 'mid': mid,
+        # reports emitted while the initial load is in flight that never reach the consumer (position mod length)
+        'lose': st.one_of(st.just([]), st.just([]), st.lists(st.booleans(), min_size=1, max_size=5))})
 
 
 def expand_schedule(schedule, m):
@@ -123,7 +133,29 @@ class Runner:
                 self.run_ops(ops)
                 self.flags.add('inflight-after-answer')
         L.NET.pre_handle, L.NET.post_handle = pre, post
+        lose = list(case.get('lose') or ())
+        lost = {'n': 0, 'seen': 0}
+
+        def lossy(entry):
+            if lose and entry.netloc == self.cons_netloc and entry.action and 'SubscriptionEnd' not in entry.action:
+                lost['seen'] += 1
+                if lose[(lost['seen'] - 1) % len(lose)]:
+                    lost['n'] += 1
+                    return ('drop',)
+            return None
+        L.NET.interceptor = lossy
+        log0 = len(L.NET.log)
         self.cmdib = ConsumerMdib(self.consumer)
+        # states the consumer announces as updated while it replays the reports buffered during the load
+        from sdc11073 import observableproperties as properties
+        announced = []
+
+        def on_states(by_handle):
+            for st_ in (by_handle or {}).values():
+                announced.append((('c', st_.Handle) if st_.is_context_state else ('s', st_.DescriptorHandle), st_.StateVersion))
+        names = ('metrics_by_handle', 'alert_by_handle', 'component_by_handle', 'context_by_handle', 'operation_by_handle',
+                 'waveform_by_handle')
+        properties.strongbind(self.cmdib, **{n: on_states for n in names})
         try:
             self.cmdib.init_mdib()
         except Exception as ex:  # noqa: BLE001
@@ -133,8 +165,81 @@ class Runner:
                                   f'init_mdib with {len(case["pre"])}+{len(case["post"])} commits in flight: {type(ex).__name__}: {ex}'[:300]))
         finally:
             L.NET.pre_handle = L.NET.post_handle = None
+            L.NET.interceptor = None
+            properties.unbind(self.cmdib, **{n: on_states for n in names})
         if not self.findings:
+            # a buffered report that is older than what a Get response of this load delivered must not be applied
+            given = self.given_by_get_responses(log0)
+            for key, sv in announced:
+                if key in given and sv < given[key][0]:
+                    self.findings.append((f'{P}/state-version-decreased/initial-load-replay',
+                                          f'{key}: {given[key][1]}Response delivered StateVersion {given[key][0]}, then the replay '
+                                          f'of a report buffered during the load applied StateVersion {sv}'))
+                    break
+        if not self.findings and not lost['n']:
             self.expect_mirror('initial-load')
+        elif not self.findings:
+            # some reports of the in-flight commits never arrived: no mirror can be expected, but the consumer holds
+            # nothing older than what the Get responses of this very load gave it, and nothing the provider never published
+            self.flags.add('reports-lost-during-initial-load')
+            self.lossy_load_findings(log0)
+            if not self.findings:
+                self.cmdib.reload_all()
+                self.expect_mirror('reload-after-lossy-load')
+
+    def given_by_get_responses(self, log0) -> dict:
+        """{state key: (highest StateVersion a Get response of the load delivered, request name)}"""
+        from lxml import etree
+        out = {}
+        for entry in L.NET.log[log0:]:
+            if not entry.action or not entry.action.endswith(('/GetMdib', '/GetContextStates')) or not entry.response:
+                continue
+            for el in etree.fromstring(entry.response).iter():
+                if not isinstance(el.tag, str) or el.get('DescriptorHandle') is None:
+                    continue
+                if etree.QName(el).localname not in ('State', 'ContextState'):
+                    continue
+                key = ('c', el.get('Handle')) if el.get('Handle') is not None else ('s', el.get('DescriptorHandle'))
+                sv = int(el.get('StateVersion') or 0)
+                if key not in out or out[key][0] < sv:
+                    out[key] = (sv, entry.action.split('/')[-1])
+        return out
+
+    def lossy_load_findings(self, log0):
+        from lxml import etree
+        cm = self.cmdib
+        have = state_versions(cm)
+        for entry in L.NET.log[log0:]:
+            if not entry.action or not entry.action.endswith(('/GetMdib', '/GetContextStates')) or not entry.response:
+                continue
+            what = entry.action.split('/')[-1]
+            root = etree.fromstring(entry.response)
+            body = root.find('{http://www.w3.org/2003/05/soap-envelope}Body')
+            v = body[0].get('MdibVersion') if body is not None and len(body) else None
+            # (the consumer takes its MdibVersion from GetMdibResponse, not from GetContextStatesResponse)
+            if what == 'GetMdib' and v is not None and cm.mdib_version is not None and cm.mdib_version < int(v):
+                self.findings.append((f'{P}/mdib-version-decreased/initial-load',
+                                      f'{what}Response carried MdibVersion {v}, after the load the consumer has {cm.mdib_version}'))
+            for el in root.iter():
+                if el.get('DescriptorHandle') is None or not isinstance(el.tag, str):
+                    continue
+                local = etree.QName(el).localname
+                if local not in ('State', 'ContextState'):
+                    continue
+                key = ('c', el.get('Handle')) if el.get('Handle') is not None else ('s', el.get('DescriptorHandle'))
+                sv = int(el.get('StateVersion') or 0)
+                if key in have and have[key] < sv:
+                    self.findings.append((f'{P}/state-version-decreased/initial-load',
+                                          f'{key}: {what}Response delivered StateVersion {sv}, after the load (with lost reports) '
+                                          f'the consumer holds {have[key]}'))
+                    return
+        for problem in C.audit_mdib(cm, 'consumer'):
+            self.findings.append((f'{P}/lookup/{problem.split("[")[0].split(":")[0]}', f'after a lossy initial load: {problem}'))
+        for k, c in state_canons(cm).items():
+            if c not in self.published.get(k, ()):
+                self.findings.append((f'{P}/state-never-published/initial-load',
+                                      f'after a lossy initial load the consumer holds a version of {k} the provider never published'))
+                break
 
     def close(self):
         L.NET.interceptor = None
@@ -320,6 +425,7 @@ def case_fn(ctx, case):
     finally:
         r.close()
     nontrivial = bool(r.flags & {'duplicate', 'reorder', 'inflight-before-answer', 'inflight-after-answer',
+                                 'reports-lost-during-initial-load',
                                  'reports-during-reload', 'inflight-between-GetMdib-and-GetContextStates'}) or any(
         f.startswith('idchange') for f in r.flags)
     ctx.case(case, nontrivial, 'case', classes=tuple(sorted(r.flags)))
